@@ -53,12 +53,20 @@ func outOfScope(path string) bool {
 
 // Load loads ./... of repo with full syntax and types. Any type error, a too
 // small package count, or library files dropped by build constraints fail.
-func Load(repo string) (*Prog, error) {
+func Load(repo string) (*Prog, error) { return LoadWith(repo, nil, nil) }
+
+// LoadWith loads the repository with replacement contents for some files
+// (absolute path -> source; used by the thorough tier to analyse variants of
+// the current tree without touching it) and extra environment entries (e.g.
+// GOARCH=386).
+func LoadWith(repo string, overlay map[string][]byte, extraEnv []string) (*Prog, error) {
 	if _, err := os.Stat(filepath.Join(repo, "go.mod")); err != nil {
 		return nil, fmt.Errorf("no go.mod in %s", repo)
 	}
 	env := append(os.Environ(), "GOFLAGS=-mod=mod", "GOPROXY=off", "GOSUMDB=off", "GOTOOLCHAIN=local", "GOWORK=off")
+	env = append(env, extraEnv...)
 	cfg := &packages.Config{
+		Overlay: overlay,
 		Mode: packages.NeedName | packages.NeedFiles | packages.NeedCompiledGoFiles | packages.NeedSyntax |
 			packages.NeedTypes | packages.NeedTypesInfo | packages.NeedTypesSizes | packages.NeedImports | packages.NeedDeps | packages.NeedModule,
 		Dir:   repo,
